@@ -1,2 +1,4 @@
 // logical models and reference implementations
 pub mod civil;
+pub mod value;
+pub mod strings;
